@@ -2,6 +2,7 @@
 package c10
 
 import (
+	"bytes"
 	"context"
 	"encoding/xml"
 	"errors"
@@ -11,6 +12,7 @@ import (
 	"strconv"
 	"strings"
 	"sync"
+	"sync/atomic"
 	"testing"
 	"time"
 
@@ -49,7 +51,11 @@ type action struct {
 type tcase struct {
 	s2s   bool
 	serve bool
-	steps [][]*action // actions of one step run concurrently; steps run one after the other
+	// the transport fails the one write that carries the closing stream tag
+	// (the peer has gone, a write deadline expired): the close was requested all
+	// the same and is final
+	closeWriteFails bool
+	steps           [][]*action // actions of one step run concurrently; steps run one after the other
 }
 
 var entries = []string{"Send", "SendElement", "Encode", "EncodeElement", "TokenWriter", "SendIQ", "SendIQElement", "EncodeIQ", "SendMessage", "EncodeMessageElement", "SendPresence", "SendPresenceElement"}
@@ -84,6 +90,7 @@ func (c *cancelReader) Token() (xml.Token, error) {
 
 func genCase(t *rapid.T) tcase {
 	tc := tcase{s2s: rapid.Bool().Draw(t, "s2s"), serve: rapid.IntRange(0, 3).Draw(t, "serve") > 0}
+	tc.closeWriteFails = rapid.IntRange(0, 5).Draw(t, "closeWriteFails") == 0
 	idx := 0
 	ns := rapid.IntRange(1, 6).Draw(t, "nsteps")
 	for s := 0; s < ns; s++ {
@@ -125,7 +132,7 @@ func genCase(t *rapid.T) tcase {
 
 func (tc tcase) String() string {
 	var sb strings.Builder
-	fmt.Fprintf(&sb, "s2s=%v serve=%v steps:", tc.s2s, tc.serve)
+	fmt.Fprintf(&sb, "s2s=%v serve=%v write-of-the-closing-tag-fails=%v steps:", tc.s2s, tc.serve, tc.closeWriteFails)
 	for i, st := range tc.steps {
 		fmt.Fprintf(&sb, "\n  step %d (concurrently):", i)
 		for _, a := range st {
@@ -289,6 +296,15 @@ func check(t interface {
 		t.Fatalf("harness: %v", err)
 	}
 	s := sv.Session
+	var closeAttempts atomic.Int32
+	sv.Conn.BeforeWrite = func(n int, p []byte) error {
+		if bytes.Contains(p, []byte("</stream:stream>")) {
+			if closeAttempts.Add(1) == 1 && tc.closeWriteFails {
+				return wire.ErrInjected
+			}
+		}
+		return nil
+	}
 
 	// handler: <trigger m=k/> writes a reply, <boom/> fails
 	var hmu sync.Mutex
@@ -498,7 +514,14 @@ func check(t interface {
 	if closes > 1 {
 		fail("closing stream tag written %d times", closes)
 	}
-	if shutdown && closes != 1 {
+	if n := closeAttempts.Load(); n > 1 {
+		fail("the closing stream tag was handed to the transport %d times (the first attempt failed: %v)", n, tc.closeWriteFails)
+	}
+	if tc.closeWriteFails {
+		if closes != 0 {
+			fail("the write of the closing tag was made to fail, yet a closing tag is on the wire")
+		}
+	} else if shutdown && closes != 1 {
 		fail("the session was closed (Close called: %v, Serve returned: %v) but the closing stream tag was written %d times", anyClose, tc.serve, closes)
 	}
 	if !shutdown && closes != 0 {
@@ -506,7 +529,7 @@ func check(t interface {
 	}
 	for _, st := range tc.steps {
 		for _, a := range st {
-			if a.kind == "close" && a.err != nil {
+			if a.kind == "close" && a.err != nil && !(tc.closeWriteFails && errors.Is(a.err, wire.ErrInjected)) {
 				fail("Close returned %v", a.err)
 			}
 		}
@@ -556,11 +579,16 @@ func check(t interface {
 			// still have been pending when the later Close ran
 			clean = false
 		}
+		if tc.closeWriteFails && errors.Is(serveErr, wire.ErrInjected) {
+			// Serve reports the failed write of the closing tag: fine; the final
+			// state below is what matters
+			clean = false
+		}
 		switch {
 		case !clean:
 			// a handler wrote after the output was closed: the handler's own error decides
 		case inputTerminated == "peerclose" || (forcedEnd && inputTerminated == ""):
-			if serveErr != nil && !deadlineSet {
+			if serveErr != nil && !deadlineSet && !(tc.closeWriteFails && errors.Is(serveErr, wire.ErrInjected)) {
 				fail("the peer closed its stream but Serve returned %v", serveErr)
 			}
 		case inputTerminated == "peererror":
@@ -617,6 +645,9 @@ func classify(tc tcase) (bool, []string) {
 		stepClose := 0
 		for _, a := range st {
 			classes = append(classes, "action-"+a.kind)
+			if tc.closeWriteFails && a.kind == "close" {
+				classes = append(classes, "closing-tag-write-fails")
+			}
 			if a.cancelMid {
 				classes = append(classes, "transmit-context-ends-mid-call")
 			}
